@@ -18,6 +18,7 @@ import (
 func init() {
 	register(&Property{
 		ID:    "C06",
+		Yield: true,
 		Level: "fault_enumeration",
 		Rule: "fault enumeration over lifecycle scenarios on an in-memory transport: configurations {tracking, client pings 0/20ms, plain/context-aware dialer, Connect/ConnectContext} x end causes {Close from 1, 3, 8 goroutines, " +
 			"EOF, read error, write error, context cancellation} x every unordered pair of causes fired from one barrier x traffic {idle, inbound backlog, outbound backlog by handler or user goroutines, handler on a gate / blocked in a send} " +
